@@ -230,7 +230,7 @@ var loopSpecs = []loopSpec{
 	{fn: "keeper.Keeper.CompleteUnbondings", what: "entries of a matured bucket", anchor: []string{"types.BankKeeper.SendCoinsFromModuleToAccount"}, props: []string{"C02", "C01"}},
 	{fn: "keeper.Keeper.CompleteRedelegations", what: "matured queue buckets", anchor: []string{"storetypes.KVStore.Delete", "corestore.KVStore.Delete"}, outer: true, props: []string{"C15"}},
 	{fn: "keeper.Keeper.CompleteRedelegations", what: "entries of a matured queue bucket", anchor: []string{"keeper.Keeper.DeleteRedelegation"}, props: []string{"C15"}},
-	{fn: "keeper.Keeper.SlashValidator", what: "asset shares of the slashed validator", anchor: []string{"keeper.Keeper.SetAsset"}, props: []string{"C06", "C08"}},
+	{fn: "keeper.Keeper.SlashValidator", what: "asset shares of the slashed validator", anchor: []string{"keeper.Keeper.SetAsset"}, props: []string{"C06", "C08", "C03"}},
 	{fn: "keeper.Keeper.DeductAssetsWithTakeRate", what: "assets", anchor: []string{"keeper.Keeper.SetAsset"},
 		skips: []skipCond{{"math.Int.IsPositive", false, ".TotalTokens", "nothing staked"}, {"math.LegacyDec.IsPositive", false, ".TakeRate", "rate zero"},
 			{"types.AllianceAsset.RewardsStarted", false, "", "asset in warm-up"}, {"math.LegacyDec.LTE", true, "math.LegacyOneDec()", "would drive the total to <= 1"}}, props: []string{"C09"}},
